@@ -159,6 +159,20 @@ pub fn c13(c: &Case, rep: &mut Report) {
             return;
         }
     };
+    // entries that name nothing (index past the last entity of that kind) and subsections walrus ignores
+    let stale = nin.funcs.iter().filter(|(i, _)| *i as usize >= din.funcs.len()).count()
+        + nin.tables.iter().filter(|(i, _)| *i as usize >= din.tables.len()).count()
+        + nin.memories.iter().filter(|(i, _)| *i as usize >= din.memories.len()).count()
+        + nin.globals.iter().filter(|(i, _)| *i as usize >= din.globals.len()).count()
+        + nin.elems.iter().filter(|(i, _)| *i as usize >= din.elems.len()).count()
+        + nin.datas.iter().filter(|(i, _)| *i as usize >= din.datas.len()).count()
+        + nin.types.iter().filter(|(i, _)| *i as usize >= din.types.len()).count();
+    if stale > 0 {
+        rep.count("inputs-with-stale-name-entries", 1);
+    }
+    for o in &nin.other_subsections {
+        rep.observe("uninterpreted-name-subsections-in-inputs", o);
+    }
     let mut total_checked = 0u64;
     for label in ["emit", "gc"] {
         let out = match end.get(&format!("out.{}", label)) {
